@@ -213,10 +213,10 @@ def hand_corpus():
     P = []
     # rt: the program is wire-unambiguous (C01's quantifier); TLC re-checks the tag on the model (PRoundTrip)
     def S(name, *code, rt=True):
-        P.append({"name": name, "kind": "struct", "dir": "net", "family": "", "action": "", "code": list(code), "rt": rt})
+        P.append({"name": name, "kind": "struct", "dir": "net", "family": "", "action": "", "code": list(code), "rt": rt, "gen": False})
     def K(family, action, d, *code, rt=True):
         suffix = "ClientPacket" if d == "net/client" else "ServerPacket"
-        P.append({"name": family + action + suffix, "kind": "packet", "dir": d, "family": family, "action": action, "code": list(code), "rt": rt})
+        P.append({"name": family + action + suffix, "kind": "packet", "dir": d, "family": family, "action": action, "code": list(code), "rt": rt, "gen": False})
     S("HInts", field("a", "byte"), field("b", "char"), field("c", "short"), field("d", "three"), field("e", "int"))
     S("HBools", field("p", "bool"), field("q", "bool:short"), field("col", "Color"), field("wide", "Color:short"), field("k", "Kind"))
     S("HStrings", field("fixed", "string", length=3), field("pad", "string", length=4, padded=True),
